@@ -233,8 +233,65 @@ pub struct Sub {
     started: Instant,
 }
 
+/// What the watchdog needs to know when a rank does not return.
+pub struct StallCtx {
+    pub prop: String,
+    pub tier: String,
+    pub sub: String,
+    pub ev_dir: String,
+}
+pub static STALL_CTX: std::sync::Mutex<Option<StallCtx>> = std::sync::Mutex::new(None);
+
+/// Called by the watchdog of `par_ranks` when one rank has been running for longer than the limit:
+/// the code under test did not return. The stuck thread cannot be stopped, so the run ends here.
+/// For the properties that state termination (C03: every parse call returns; C12: iteration
+/// terminates) this is a violation with a replayable case (sub-check + rank); for every other
+/// property the check cannot complete and says so (exit 2), pointing at C03.
+pub fn stalled(rank: u64, secs: u64) -> ! {
+    let g = STALL_CTX.lock().unwrap_or_else(|e| e.into_inner());
+    let (prop, tier, sub, ev_dir) = match g.as_ref() {
+        Some(c) => (c.prop.clone(), c.tier.clone(), c.sub.clone(), c.ev_dir.clone()),
+        None => ("?".into(), "quick".into(), "?".into(), ".".into()),
+    };
+    let what = format!("rank {} of sub-check '{}' did not return within {} s: the code under test does not terminate on this case", rank, sub, secs);
+    if prop == "C03" || prop == "C12" {
+        let rp_dir = format!("{}/replays/{}", ev_dir, prop);
+        let _ = std::fs::create_dir_all(&rp_dir);
+        let path = format!("{}/stall.json", rp_dir);
+        let body = json!({
+            "property": prop, "sub": sub, "kind": "no-answer", "class": format!("no-answer:{}", sub),
+            "witness": format!("sub-check={} rank={}", sub, rank), "detail": what,
+            "case": {"stalled_sub": sub, "stalled_rank": rank, "tier": tier},
+            "replay_cmd": format!("./check --replay {}", path),
+        });
+        let _ = std::fs::write(&path, serde_json::to_string_pretty(&body).unwrap());
+        let ev = json!({
+            "property_id": prop, "tier": tier, "seed": 0, "level": "exploration",
+            "coverage": {"evaluations": rank.max(1), "distinct_nontrivial": 1, "rule": format!("[{}] interrupted: {}", sub, what),
+                "samples": [{"sub": sub, "case": format!("rank {}", rank)}], "exhaustive": false,
+                "explanation": "the exploration was cut short by the watchdog because one case did not return; nothing after it was explored"},
+            "assumptions": [format!("a single bounded case needs far less than {} s", secs)],
+            "wall_s": 0.0, "violations": 1,
+            "violation_classes": [{"sub": sub, "kind": "no-answer", "class": format!("no-answer:{}", sub), "witness": format!("rank {}", rank), "detail": what, "occurrences_in_class": 1, "replay": path}],
+            "known_findings_hit": [],
+        });
+        let _ = std::fs::create_dir_all(&ev_dir);
+        let _ = std::fs::write(format!("{}/{}.json", ev_dir, prop), serde_json::to_string_pretty(&ev).unwrap());
+        eprintln!("  violation class [{} / no-answer / no-answer:{}] x1: witness rank {} -- {}", sub, sub, rank, what);
+        println!("VIOLATION property={} replay={}", prop, path);
+        std::process::exit(1);
+    }
+    eprintln!("MACHINERY: {} (property {}; non-termination is a violation of C03 — run ./check C03; to look at this case: MC_ONLY_RANK={} mc {} --tier {} --only {})", what, prop, rank, prop, tier, sub);
+    std::process::exit(2);
+}
+
 impl Sub {
     pub fn new(name: &str, rule: &str, bounds: &str) -> Sub {
+        if let Ok(mut g) = STALL_CTX.lock() {
+            if let Some(c) = g.as_mut() {
+                c.sub = name.to_string();
+            }
+        }
         Sub {
             name: name.to_string(),
             rule: rule.to_string(),
@@ -275,6 +332,10 @@ pub struct Report {
 
 impl Report {
     pub fn new(ctx: &Ctx, level: &str) -> Report {
+        if let Ok(mut g) = STALL_CTX.lock() {
+            let ev_dir = std::env::var("VERIF_EVIDENCE_DIR").unwrap_or_else(|_| format!("{}/evidence", ctx.verif_dir));
+            *g = Some(StallCtx { prop: ctx.prop.clone(), tier: ctx.tier.name().to_string(), sub: String::new(), ev_dir });
+        }
         Report {
             prop: ctx.prop.clone(),
             level: level.to_string(),
